@@ -1,0 +1,238 @@
+//! Verification seams, compiled only with `--cfg rustrtc_verif`.
+//! Thin adapters: the simulator that owns the network, clock, randomness and
+//! task order lives outside this crate.
+use std::cell::{Cell, RefCell};
+use std::future::{Future, poll_fn};
+use std::io;
+use std::net::{SocketAddr, ToSocketAddrs};
+use std::pin::Pin;
+use std::sync::Arc;
+use std::task::{Context, Poll};
+
+// ---- clock --------------------------------------------------------------
+pub use tokio::time::Instant;
+
+thread_local! {
+    static UNIX_BASE_MS: Cell<u64> = const { Cell::new(1_800_000_000_000) };
+    static CLOCK_T0: Cell<Option<tokio::time::Instant>> = const { Cell::new(None) };
+    static STD_T0: Cell<Option<std::time::Instant>> = const { Cell::new(None) };
+}
+fn virt_elapsed() -> std::time::Duration {
+    let now = tokio::time::Instant::now();
+    let t0 = CLOCK_T0.with(|c| match c.get() { Some(t) => t, None => { c.set(Some(now)); now } });
+    now.saturating_duration_since(t0)
+}
+/// Call at the start of every simulated run.
+pub fn reset_clock(unix_base_ms: u64) {
+    CLOCK_T0.with(|c| c.set(Some(tokio::time::Instant::now())));
+    UNIX_BASE_MS.with(|c| c.set(unix_base_ms));
+}
+pub fn set_unix_skew_ms(base: u64) { UNIX_BASE_MS.with(|c| c.set(base)); }
+pub fn unix_millis() -> u64 { UNIX_BASE_MS.with(|c| c.get()) + virt_elapsed().as_millis() as u64 }
+/// A `std::time::Instant` that follows the virtual clock (for code that names the std type).
+pub fn std_now() -> std::time::Instant {
+    let base = STD_T0.with(|c| match c.get() { Some(t) => t, None => { let t = std::time::Instant::now(); c.set(Some(t)); t } });
+    base + virt_elapsed()
+}
+
+// ---- randomness ---------------------------------------------------------
+thread_local! {
+    static RANDOM: RefCell<Option<Box<dyn FnMut(&mut [u8])>>> = const { RefCell::new(None) };
+    static CERTS: RefCell<Option<Box<dyn FnMut() -> (Vec<u8>, String)>>> = const { RefCell::new(None) };
+    static TSN: Cell<Option<u32>> = const { Cell::new(None) };
+}
+pub fn set_random_source(f: Option<Box<dyn FnMut(&mut [u8])>>) { RANDOM.with(|c| *c.borrow_mut() = f); }
+pub fn fill_random(buf: &mut [u8]) -> bool {
+    RANDOM.with(|c| match c.borrow_mut().as_mut() { Some(f) => { f(buf); true } None => false })
+}
+pub fn set_certificate_source(f: Option<Box<dyn FnMut() -> (Vec<u8>, String)>>) { CERTS.with(|c| *c.borrow_mut() = f); }
+pub fn next_certificate() -> Option<(Vec<u8>, String)> { CERTS.with(|c| c.borrow_mut().as_mut().map(|f| f())) }
+pub fn set_initial_tsn_override(v: Option<u32>) { TSN.with(|c| c.set(v)); }
+pub fn initial_tsn_override() -> Option<u32> { TSN.with(|c| c.get()) }
+
+pub struct HookRng;
+impl p256::elliptic_curve::rand_core::RngCore for HookRng {
+    fn next_u32(&mut self) -> u32 { let mut b = [0u8; 4]; self.fill_bytes(&mut b); u32::from_le_bytes(b) }
+    fn next_u64(&mut self) -> u64 { let mut b = [0u8; 8]; self.fill_bytes(&mut b); u64::from_le_bytes(b) }
+    fn fill_bytes(&mut self, dest: &mut [u8]) {
+        if !fill_random(dest) {
+            p256::elliptic_curve::rand_core::RngCore::fill_bytes(&mut p256::elliptic_curve::rand_core::OsRng, dest)
+        }
+    }
+    fn try_fill_bytes(&mut self, dest: &mut [u8]) -> Result<(), p256::elliptic_curve::rand_core::Error> { self.fill_bytes(dest); Ok(()) }
+}
+impl p256::elliptic_curve::rand_core::CryptoRng for HookRng {}
+
+// ---- task order ---------------------------------------------------------
+thread_local! {
+    /// Called before each poll of an internally spawned task: true = requeue instead of running.
+    static DEFER: RefCell<Option<Box<dyn FnMut() -> bool>>> = const { RefCell::new(None) };
+}
+pub fn set_defer_decider(f: Option<Box<dyn FnMut() -> bool>>) { DEFER.with(|c| *c.borrow_mut() = f); }
+pub struct Deferrable<F>(Pin<Box<F>>);
+pub fn wrap_task<F: Future>(f: F) -> Deferrable<F> { Deferrable(Box::pin(f)) }
+impl<F: Future> Future for Deferrable<F> {
+    type Output = F::Output;
+    fn poll(mut self: Pin<&mut Self>, cx: &mut Context<'_>) -> Poll<F::Output> {
+        let defer = DEFER.with(|c| c.borrow_mut().as_mut().map(|f| f()).unwrap_or(false));
+        if defer { cx.waker().wake_by_ref(); return Poll::Pending; }
+        self.0.as_mut().poll(cx)
+    }
+}
+
+// ---- network ------------------------------------------------------------
+pub trait SimUdp: Send + Sync + 'static {
+    fn local_addr(&self) -> io::Result<SocketAddr>;
+    fn try_send_to(&self, buf: &[u8], to: SocketAddr) -> io::Result<usize>;
+    fn try_recv_from(&self, buf: &mut [u8]) -> io::Result<(usize, SocketAddr)>;
+    fn poll_readable(&self, cx: &mut Context<'_>) -> Poll<io::Result<()>>;
+}
+pub type UdpBinder = dyn Fn(SocketAddr) -> io::Result<Arc<dyn SimUdp>>;
+thread_local! { static BINDER: RefCell<Option<Arc<UdpBinder>>> = const { RefCell::new(None) }; }
+pub fn set_udp_binder(b: Option<Arc<UdpBinder>>) { BINDER.with(|c| *c.borrow_mut() = b); }
+
+/// Drop-in for `tokio::net::UdpSocket` over a simulated socket.
+pub struct UdpSocket(Arc<dyn SimUdp>);
+impl std::fmt::Debug for UdpSocket {
+    fn fmt(&self, f: &mut std::fmt::Formatter<'_>) -> std::fmt::Result { write!(f, "SimUdpSocket({:?})", self.0.local_addr()) }
+}
+impl UdpSocket {
+    pub fn from_sim(s: Arc<dyn SimUdp>) -> Self { Self(s) }
+    pub async fn bind<A: ToSocketAddrs>(addr: A) -> io::Result<Self> {
+        let addr = addr.to_socket_addrs()?.next().ok_or_else(|| io::Error::new(io::ErrorKind::InvalidInput, "no address"))?;
+        let binder = BINDER.with(|c| c.borrow().clone()).ok_or_else(|| io::Error::other("no simulated network installed"))?;
+        Ok(Self(binder(addr)?))
+    }
+    pub fn local_addr(&self) -> io::Result<SocketAddr> { self.0.local_addr() }
+    pub fn try_send_to(&self, buf: &[u8], to: SocketAddr) -> io::Result<usize> { self.0.try_send_to(buf, to) }
+    pub async fn send_to(&self, buf: &[u8], to: SocketAddr) -> io::Result<usize> { self.0.try_send_to(buf, to) }
+    pub fn try_recv_from(&self, buf: &mut [u8]) -> io::Result<(usize, SocketAddr)> { self.0.try_recv_from(buf) }
+    pub async fn readable(&self) -> io::Result<()> { poll_fn(|cx| self.0.poll_readable(cx)).await }
+    pub async fn writable(&self) -> io::Result<()> { Ok(()) }
+    pub async fn recv_from(&self, buf: &mut [u8]) -> io::Result<(usize, SocketAddr)> {
+        loop {
+            self.readable().await?;
+            match self.0.try_recv_from(buf) { Err(e) if e.kind() == io::ErrorKind::WouldBlock => continue, r => return r }
+        }
+    }
+}
+
+// ---- wall clock as SystemTime / environment ------------------------------
+thread_local! { static VIRT_WALL: Cell<bool> = const { Cell::new(false) }; static LOCAL_IP: Cell<Option<std::net::IpAddr>> = const { Cell::new(None) }; }
+pub fn set_virtual_wall_clock(on: bool) { VIRT_WALL.with(|c| c.set(on)); }
+pub fn system_time_now() -> std::time::SystemTime {
+    if VIRT_WALL.with(|c| c.get()) { std::time::UNIX_EPOCH + std::time::Duration::from_millis(unix_millis()) } else { std::time::SystemTime::now() }
+}
+pub fn system_time_or(t: std::time::SystemTime) -> std::time::SystemTime { if VIRT_WALL.with(|c| c.get()) { system_time_now() } else { t } }
+pub fn set_local_ip_override(ip: Option<std::net::IpAddr>) { LOCAL_IP.with(|c| c.set(ip)); }
+pub fn local_ip_override() -> Option<std::net::IpAddr> { LOCAL_IP.with(|c| c.get()) }
+
+// ---- thread scheduling points for the lock-free track queue ---------------
+/// Drop-in wrappers for `std::sync::atomic::*` and `parking_lot::Mutex` used by
+/// `media/spsc.rs` and `media/track.rs`: every operation calls a registered
+/// scheduling-point callback before and after it, so an external controlled
+/// scheduler (shuttle) owns the interleaving. With no callback registered they
+/// behave exactly like the originals.
+pub mod sync {
+    use std::sync::OnceLock;
+    use std::sync::atomic as sa;
+    pub use std::sync::atomic::Ordering;
+    static YIELD: OnceLock<fn()> = OnceLock::new();
+    pub fn set_sched_point(f: fn()) {
+        let _ = YIELD.set(f);
+    }
+    #[inline]
+    fn sp() {
+        if let Some(f) = YIELD.get() {
+            f()
+        }
+    }
+    macro_rules! wrap {
+        ($n:ident, $inner:ty, $t:ty) => {
+            #[derive(Debug, Default)]
+            pub struct $n($inner);
+            impl $n {
+                pub const fn new(v: $t) -> Self {
+                    Self(<$inner>::new(v))
+                }
+                pub fn load(&self, o: Ordering) -> $t {
+                    sp();
+                    let r = self.0.load(o);
+                    sp();
+                    r
+                }
+                pub fn store(&self, v: $t, o: Ordering) {
+                    sp();
+                    self.0.store(v, o);
+                    sp();
+                }
+                pub fn swap(&self, v: $t, o: Ordering) -> $t {
+                    sp();
+                    let r = self.0.swap(v, o);
+                    sp();
+                    r
+                }
+                pub fn compare_exchange(
+                    &self,
+                    c: $t,
+                    n: $t,
+                    s: Ordering,
+                    f: Ordering,
+                ) -> Result<$t, $t> {
+                    sp();
+                    let r = self.0.compare_exchange(c, n, s, f);
+                    sp();
+                    r
+                }
+            }
+        };
+    }
+    wrap!(AtomicUsize, sa::AtomicUsize, usize);
+    wrap!(AtomicBool, sa::AtomicBool, bool);
+    wrap!(AtomicU64, sa::AtomicU64, u64);
+    impl AtomicU64 {
+        pub fn fetch_add(&self, v: u64, o: Ordering) -> u64 {
+            sp();
+            let r = self.0.fetch_add(v, o);
+            sp();
+            r
+        }
+    }
+    impl AtomicUsize {
+        pub fn fetch_add(&self, v: usize, o: Ordering) -> usize {
+            sp();
+            let r = self.0.fetch_add(v, o);
+            sp();
+            r
+        }
+        pub fn fetch_sub(&self, v: usize, o: Ordering) -> usize {
+            sp();
+            let r = self.0.fetch_sub(v, o);
+            sp();
+            r
+        }
+    }
+    pub struct Mutex<T>(parking_lot::Mutex<T>);
+    impl<T> Mutex<T> {
+        pub fn new(v: T) -> Self {
+            Self(parking_lot::Mutex::new(v))
+        }
+        pub fn lock(&self) -> parking_lot::MutexGuard<'_, T> {
+            loop {
+                sp();
+                if let Some(g) = self.0.try_lock() {
+                    return g;
+                }
+                if YIELD.get().is_none() {
+                    return self.0.lock();
+                }
+            }
+        }
+        pub fn try_lock(&self) -> Option<parking_lot::MutexGuard<'_, T>> {
+            sp();
+            let r = self.0.try_lock();
+            sp();
+            r
+        }
+    }
+}
